@@ -14,6 +14,8 @@ import YalafiVerif.Proofs.GenRepl
 import YalafiVerif.Proofs.PlainMacro
 import YalafiVerif.Generated.Init
 import YalafiVerif.Properties.PlainMacroArgsStmt
+import YalafiVerif.Properties.PlainDefsStmt
+import YalafiVerif.Properties.PlainOptArgStmt
 namespace Yalafi
 
 theorem C09_genRepl_nil (arguments : List (List Tok)) (start : Nat) :
